@@ -254,6 +254,14 @@ def part_generated(args):
             cookie = refcodec.enc_someip(0xFFFF, method, client, session, 1, mtype, 0, b"")
             for data, what in ((cookie, "alone"), (cookie + other, "in front"), (other + cookie, "behind"), (cookie + cookie + other, "twice")):
                 run("someip", hdr.SOMEIPHeader.parse, data, f"magic-cookie lookalike {method:#x}/{mtype:#x}/{client:#x}{session:04x} {what}")
+    # SD messages with 255..270 options whose last run starts at an index <= 255 and reaches up to position 270
+    for total in (255, 256, 257, 260, 269, 270):
+        opts = [("unknown", 0x70, bytes([0, i & 0xFF, i >> 8])) for i in range(total)]
+        raw = [dict(type=1, i1=i, i2=0, n1=min(15, 255 - i), n2=0, service=1 + i, instance=2, major=3, ttl=4, last=5)
+               for i in range(0, 255, 15)]
+        start = min(255, total - 1)
+        raw.append(dict(type=1, i1=start, i2=240, n1=total - start, n2=15, service=0x999, instance=2, major=3, ttl=4, last=5))
+        run("sd", hdr.SOMEIPSDHeader.parse, refcodec.enc_sd(0xC0, raw, opts), f"{total} options, last run {start}+{total - start}")
     # whole SOME/IP messages around the SD payloads: every message type / return code
     for mt in refcodec.MESSAGE_TYPES:
         for rcode in refcodec.RETURN_CODES:
